@@ -398,6 +398,8 @@ def t_negreg(g):
     for i in range(r.randrange(1, 3)):
         pool.append(g.combine(pool))
     x = pool[-1]
+    # the observed value always depends on the partner register
+    x = g.op2(x, g.coerce(ap, g.typ[x])) if g.typ[x] != 'b' or r.random() < 0.5 else g.mux(x, ap, g.coerce(gouts[-1], g.typ[ap]))
     if r.random() < 0.35:
         x = g.hint(x)
         g.feat.add("negreg+pipestage")
